@@ -43,6 +43,19 @@ class NtMix2(DataClassDictMixin):
     b: NT = NT(1, "x")
 
 @dataclass
+class NtList(DataClassDictMixin):
+    # the field-level engine applies to the field's own value, not to the items of a collection
+    a: List[NT] = field(metadata={"serialize": "as_list", "deserialize": "as_list"})
+    o: Optional[NT] = field(default=None, metadata={"serialize": "as_list", "deserialize": "as_list"})
+    class Config(BaseConfig):
+        namedtuple_as_dict = True
+
+@dataclass
+class NtList2(DataClassDictMixin):
+    a: Dict[str, NT] = field(metadata={"serialize": "as_dict", "deserialize": "as_dict"})
+    t: Tuple[NT, int] = field(default=(NT(1, "x"), 2), metadata={"serialize": "as_dict", "deserialize": "as_dict"})
+
+@dataclass
 class InitF(DataClassDictMixin):
     x: int
     y: int = field(init=False, default=3)
@@ -68,7 +81,7 @@ EXTRA = [("ntmix", "NtMix"), ("ntmix2", "NtMix2"), ("al", "Al"), ("al2", "Al2"),
          ("dict_bool", "Dict[bool, int]"), ("dict_float", "Dict[float, int]"), ("dict_enum", "Dict[Num, int]"),
          ("tstar3", "Tuple[int, Unpack[Tuple[str, str]], float]"), ("tstar4", "Tuple[Unpack[Tuple[int, ...]], str]"),
          ("nt_list", "List[NT]"), ("opt_gen", "Optional[Gen[int]]"), ("lit_bytes", "Literal[b'x', 'y']"),
-         ("initf", "InitF"), ("initf_list", "List[InitF]")]
+         ("ntlist", "NtList"), ("ntlist2", "NtList2"), ("initf", "InitF"), ("initf_list", "List[InitF]")]
 
 
 def probe(s, variant):
